@@ -346,18 +346,23 @@ class PropertyRun:
         for rep in self.reports:
             if rep.status in ("outside-subset", "missing"):
                 self.undecided.append(f"{rep.label}: {rep.status}: {rep.reason}")
-                continue
+                if not getattr(rep, "obligations", None):
+                    continue
+                # some alternative / path of the function left the subset, but the obligations generated before that (other alternatives, earlier
+                # program points) are still obligations of the real code: a failed one is reported, not swallowed by the "undecided" verdict
             if rep.status == "error":
                 self.crashes.append(f"{rep.label}: {rep.reason}")
                 continue
-            if not rep.obligations:
-                self.crashes.append(f"{rep.label}: zero obligations generated (vacuous)")
-            for dp in rep.vacuity.get("dead_paths", []):
-                self.crashes.append(f"{rep.label}: contradictory assumptions on path {dp} (vacuous proof)")
-            if rep.vacuity.get("requires_sat") in ("unsat",):
-                self.crashes.append(f"{rep.label}: contradictory precondition")
-            elif rep.vacuity.get("requires_sat") not in ("sat", "sat-without-lemmas", "unknown"):
-                self.undecided.append(f"{rep.label}: satisfiability of the precondition: {rep.vacuity.get('requires_sat')}")
+            partial = rep.status in ("outside-subset", "missing")
+            if not partial:
+                if not rep.obligations:
+                    self.crashes.append(f"{rep.label}: zero obligations generated (vacuous)")
+                for dp in rep.vacuity.get("dead_paths", []):
+                    self.crashes.append(f"{rep.label}: contradictory assumptions on path {dp} (vacuous proof)")
+                if rep.vacuity.get("requires_sat") in ("unsat",):
+                    self.crashes.append(f"{rep.label}: contradictory precondition")
+                elif rep.vacuity.get("requires_sat") not in ("sat", "sat-without-lemmas", "unknown"):
+                    self.undecided.append(f"{rep.label}: satisfiability of the precondition: {rep.vacuity.get('requires_sat')}")
             failed_keys = set()
             searched = {}
             for lob in sorted(rep.obligations, key=lambda o: 0 if o.result["status"] == "failed" else 1):
